@@ -45,6 +45,8 @@ type nameSpace struct {
 	// javascript: URIs are disallowed in templates in this namespace.
 	cspCompatible bool
 	esc           escaper
+	// pristine holds copies of parse trees taken before their first in-place rewrite.
+	pristine map[string]*parse.Tree
 }
 
 // Templates returns a slice of the templates associated with t, including t
